@@ -73,6 +73,33 @@ Proof.
   apply Permutation_map, Permutation_sym, sort_by_perm.
 Qed.
 
+(* the removal order is a permutation of the removal set, whatever the ranks *)
+Lemma insert_rank_perm : forall rk x l, Permutation (insert_rank rk x l) (x :: l).
+Proof.
+  intros rk x l. induction l as [|y r IH]; cbn; [apply Permutation_refl|].
+  destruct (Nat.leb (rk x) (rk y)); [apply Permutation_refl|].
+  eapply Permutation_trans; [apply perm_skip, IH | apply perm_swap].
+Qed.
+
+Lemma rank_sort_perm : forall rk l, Permutation (rank_sort rk l) l.
+Proof.
+  intros rk l. induction l as [|x r IH]; cbn; [apply Permutation_refl|].
+  eapply Permutation_trans; [apply insert_rank_perm | apply perm_skip, IH].
+Qed.
+
+Lemma rank_sort_In : forall rk l x, In x (rank_sort rk l) <-> In x l.
+Proof.
+  intros rk l x. split; apply Permutation_in; [apply rank_sort_perm | apply Permutation_sym, rank_sort_perm].
+Qed.
+
+Lemma mem_rank_sort : forall rk l x, mem_bytes x (rank_sort rk l) = mem_bytes x l.
+Proof.
+  intros rk l x. destruct (mem_bytes x l) eqn:H.
+  - apply mem_bytes_In. apply rank_sort_In. apply mem_bytes_In. exact H.
+  - destruct (mem_bytes x (rank_sort rk l)) eqn:H'; [|reflexivity].
+    apply mem_bytes_In in H'. apply rank_sort_In in H'. apply mem_bytes_In in H'. congruence.
+Qed.
+
 (* ---------- file system ---------- *)
 
 Lemma lookup_del_same : forall p s, fs_lookup p (fs_del p s) = None.
@@ -300,6 +327,7 @@ Proof.
     + destruct (Hwr e H) as [H1 H2]. split; [exact H1 | left; exact H2].
     + apply in_map_iff in H. destruct H as [f [Hf Hin]]. subst e. cbn [effect_path fst snd].
       pose proof (write_loop_rem a p (e_order E p gfs) (generated_files a p) f) as Hr. rewrite Hw in Hr.
+      apply rank_sort_In in Hin.
       specialize (Hr Hin). unfold generated_files in Hr. apply filter_In in Hr. destruct Hr as [Hr1 Hr2].
       split; [split; [reflexivity | exact Hr2] | right; exact Hr1].
 Qed.
